@@ -19,7 +19,7 @@ worker() {
     cd $D/repo && git checkout -q -- . && git clean -fdq src
     P=$ROOT/seeded/$id/patch.diff
     git apply $P 2>/dev/null || patch -p1 --no-backup-if-mismatch -s < $P || { echo "$id APPLY-FAILED" > $ROOT/seeded/$id/detect.txt; echo "$id: APPLY-FAILED"; continue; }
-    OUT=$(cd $ROOT && ./bpv all 2>&1)
+    OUT=$(cd $ROOT && ./bpv all --tier ${TIER:-quick} 2>&1)
     { echo "$OUT" | grep "^\[C" | awk '{print $1, $5}' ; echo "---"; echo "$OUT" | grep -A2 "^VIOLATION" | grep "rule=" | sort | uniq -c | sort -rn | head -40; } > $ROOT/seeded/$id/detect.txt
     echo "$id: $(grep -v 'violations=0' $ROOT/seeded/$id/detect.txt | grep '^\[C' | tr -d '[]' | awk '{print $1}' | tr '\n' ' ')"
   done
